@@ -450,6 +450,39 @@ func runC18(c *Ctx) {
 		}
 	})
 
+	// IP-literal hosts: the UDP address is AddrPortFrom(ParseAddr(host), port) of the very parseDialAddr results
+	eachInstrDeep(nu, func(f *ssa.Function, in ssa.Instruction) {
+		ci, ok := in.(*ssa.Call)
+		if !ok || callName(ci) != "net/netip.AddrPortFrom" {
+			return
+		}
+		key := "literal-udp-addr@" + funcName(f)
+		portOK := false
+		for _, r := range tr2.origins(ci.Call.Args[1]) {
+			if ex, ok := r.(*ssa.Extract); ok && fromPDA(r) && ex.Index == 1 {
+				portOK = true
+			} else {
+				portOK = false
+				break
+			}
+		}
+		hostOK := false
+		for _, r := range tr2.origins(ci.Call.Args[0]) {
+			ex, ok := r.(*ssa.Extract)
+			if !ok {
+				continue
+			}
+			if cl, ok := ex.Tuple.(*ssa.Call); ok && callName(cl) == "net/netip.ParseAddr" {
+				for _, r2 := range tr2.origins(cl.Call.Args[0]) {
+					if e2, ok := r2.(*ssa.Extract); ok && fromPDA(r2) && e2.Index == 0 {
+						hostOK = true
+					}
+				}
+			}
+		}
+		c.check(portOK && hostOK, key, instrPos(in), "AddrPortFrom(ParseAddr(parsed host), parsed port)", "the UDP address of an IP-literal host is not built from parseDialAddr's own host and port (e.g. the default port is used instead of the user's): quic/h3 upstreams with an explicit port connect elsewhere")
+	})
+
 	// ---------------------------------------------------------------- R3
 	c.rule("R3", "the default TLS ServerName is tryRemovePort(trimmed URL host), set only when none is configured", 2)
 	trp := c.fn(relUpstream, "", "tryRemovePort")
@@ -733,6 +766,52 @@ func runC18(c *Ctx) {
 			}
 		}
 		c.ok("config-not-rewritten", nu.Pos(), "the parsed URL's host/path and opt.DialAddr are never written in pkg/upstream")
+	}
+
+
+	// ---------------------------------------------------------------- R9
+	c.rule("R9", "what the user configured reaches NewUpstream: forward passes the configured address as the address argument and dial_addr / bootstrap / bootstrap_version into the options, field by field", 4)
+	if nf := c.fn(relForward, "", "NewForward"); nf != nil {
+		c.see(nf)
+		var nuCall *ssa.Call
+		eachInstr(nf, func(in ssa.Instruction) {
+			if ci, ok := in.(*ssa.Call); ok && callName(ci) == relUpstream+".NewUpstream" {
+				nuCall = ci
+			}
+		})
+		if nuCall == nil {
+			c.anchorMissing("upstream.NewUpstream call in NewForward")
+		} else {
+			k, _ := loadedField(nuCall.Call.Args[0])
+			c.check(strings.HasSuffix(k, ".UpstreamConfig.Addr"), "plumbing:Addr", instrPos(nuCall), "NewUpstream(c.Addr, ...)", "the address handed to NewUpstream is "+exprStr(nuCall.Call.Args[0])+", not the configured addr")
+			// the option literal
+			var lit *ssa.Alloc
+			if ld, ok := nuCall.Call.Args[1].(*ssa.UnOp); ok {
+				lit, _ = ld.X.(*ssa.Alloc)
+			}
+			for _, fld := range []string{"DialAddr", "Bootstrap", "BootstrapVer"} {
+				good := false
+				if lit != nil {
+					for _, r := range referrers(lit) {
+						fa, ok := r.(*ssa.FieldAddr)
+						if !ok {
+							continue
+						}
+						if fk, _ := fieldKey(fa); fk != relUpstream+".Opt."+fld {
+							continue
+						}
+						for _, r2 := range referrers(fa) {
+							if st, ok := r2.(*ssa.Store); ok {
+								if sk, _ := loadedField(st.Val); strings.HasSuffix(sk, ".UpstreamConfig."+fld) {
+									good = true
+								}
+							}
+						}
+					}
+				}
+				c.check(good, "plumbing:"+fld, instrPos(nuCall), "Opt."+fld+" = c."+fld, "the configured "+fld+" does not reach the upstream options: the upstream silently connects as if it were not set")
+			}
+		}
 	}
 
 }
